@@ -12,7 +12,7 @@ CFG = {'streams': [{'name': 'C01',
          'globals; non-trivial = at least 2 stanzas and at least 3 matches; distinct by hash of (DSL, source)',
  'explanation': 'Theorems: strict_refines_reference — the model of strict.rs (Model/Strict.v, with cancellation polls, error contexts, the shared '
                 'function_parameters buffer) returns exactly the result of the reference semantics Spec/RefSem.v (same graph by equality; same '
-                'root-cause error; panics/divergence coincide), for every file, tree, match list, globals, function library, initial graph and fuel; '
+                'root-cause error; panics/divergence coincide), for every file, tree, match list, globals, initial graph and fuel, and every function library whose errors are plain (call_errors_base: true of the standard library, discharged in Props - see the _stdlib corollaries), with no debug attributes configured and no cancellation budget; '
                 "params_stack_balanced; the driver runs each stanza's block once per match in file order; a successful run only extends the graph. "
                 'Correspondence: BOTH Model/Strict.v and Spec/RefSem.v are evaluated (vm_compute) on every generated case and compared with '
                 'File::execute — whole graph exactly (strict numbering is deterministic) or root-cause error variant.',
